@@ -19,7 +19,7 @@ def main():
     sh("cp -r %s/harness/target %s/harness/target" % (ROOT, MX))
     ct = open("%s/harness/Cargo.toml" % MX).read().replace('path = "/repo"', 'path = "%s/repo"' % MX)
     open("%s/harness/Cargo.toml" % MX, "w").write(ct)
-    env = dict(os.environ, VERIF_HARNESS_DIR=MX + "/harness", VERIF_WORK_DIR=MX + "/work", VERIF_EVID_DIR=MX + "/evidence")
+    env = dict(os.environ, VERIF_HARNESS_DIR=MX + "/harness", VERIF_WORK_DIR=MX + "/work", VERIF_EVID_DIR=MX + "/evidence", VERIF_SKIP_DESIGN="1")
     results = {}
     for name in names:
         d = os.path.join(ROOT, "seeded", name)
